@@ -5,7 +5,8 @@ import H4.AttrSD
 `VSsetattr`, `VSnattrs`, `VSfnattrs`, `VSfindattr`, `VSattrinfo`, `VSgetattr`, `Vsetattr`, `Vnattrs`, `Vfindattr`,
 `Vattrinfo`, `Vgetattr`.  An attribute is a Vdata of class "Attr0.0" created at once by `VHstoredatam`
 (so it is on disk immediately and survives close/reopen without a separate codec); `VSsetname` truncates its name to
-VSNAMELENMAX, while the lookups compare the stored name with the FULL name given by the caller.
+VSNAMELENMAX, and the lookups compare the stored name with the first VSNAMELENMAX characters of the caller's name
+(`strncmp(vsname, attrname, VSNAMELENMAX)`), i.e. with the name as it would be stored.
 A Vdata keeps ONE list `alist` of (field index, attribute); the attributes of a field are the entries with that index.
 -/
 namespace H4.AttrVS
@@ -28,7 +29,6 @@ structure File where
   writable : Bool := false
   vds : List Vdata := []
   vgs : List Vgroup := []
-  leaked : Bool := false   -- a failed `VHstoredatam` left its new Vdata attached (known finding): `Hclose` will FAIL
 deriving Repr, Inhabited
 
 /-- the attributes of field `fx` (−1 = the Vdata itself), in index order -/
@@ -48,10 +48,11 @@ def badField (n : Nat) (fx : Int) : Bool := (fx ≥ n || fx < 0) && fx != _HDF_V
 /-- the attribute Vdata `VHstoredatam(.., attrname, _HDF_ATTRIBUTE, count)` creates: name cut to VSNAMELENMAX -/
 def stored (a : Attr) : Attr := { a with name := a.name.take VSNAMELENMAX }
 
-/-- `VSsetattr` on `alist`: search the entries of field `fx` for a stored name equal to the given name; existing →
-    type and order must match, the record is overwritten; else a new attribute Vdata is appended. `none` = FAIL. -/
+/-- `VSsetattr` on `alist`: search the entries of field `fx` for a stored name equal to the given name as it would be
+    stored; existing → type and order must match, the record is overwritten; else a new attribute Vdata is appended.
+    `none` = FAIL. -/
 def vsPut (al : List (Int × Attr)) (fx : Int) (a : Attr) (count : Int) : Option (List (Int × Attr)) :=
-  match find a.name (view al fx) with
+  match find (stored a).name (view al fx) with
   | some k =>
     let old := (view al fx).getD k default
     if compatible .vs old a then (posOf al fx k).map fun p => al.set p (fx, { a with name := old.name }) else none
@@ -66,11 +67,7 @@ def start (f : File) (create writable : Bool) : File :=
 /-- detach everything, `Vend` + `Hclose` -/
 def vEnd (f : File) : File × Out :=
   if !f.isOpen then (f, .fail) else
-  ({ f with isOpen := false, vds := f.vds.map ({ · with mode := none }), vgs := f.vgs.map ({ · with mode := none }) },
-   if f.leaked then .fail else .ok)
-
-/-- does a failing set leave the half-made attribute Vdata attached?  (`VHstoredatam`: `VSattach` succeeded, `VSfdefine` refused) -/
-def leaks (al : AList) (a : Attr) (count : Int) : Bool := (find a.name al).isNone && !argsOk a.nt count
+  ({ f with isOpen := false, vds := f.vds.map ({ · with mode := none }), vgs := f.vgs.map ({ · with mode := none }) }, .ok)
 
 /-- a new Vdata with `n` int32 fields and one record, left attached "w" -/
 def vsCreate (f : File) (n : Nat) : File × Out :=
@@ -128,7 +125,7 @@ def vsSetAttr (f : File) (i : Nat) (fx : Int) (name : Bytes) (nt : Nat) (count :
     if v.mode != some true then (f, .fail)
     else if badField v.nfields fx then (f, .fail)
     else match vsPut v.alist fx { name := name, nt := nt, count := count.toNat, val := val } count with
-      | none => ({ f with leaked := f.leaked || leaks (view v.alist fx) { name := name, nt := nt, count := count.toNat, val := val } count }, .fail)
+      | none => (f, .fail)
       | some al => ({ f with vds := f.vds.set i { v with alist := al } }, .ok)
 
 /-- `VSnattrs` -/
@@ -152,7 +149,7 @@ def vsFindAttr (f : File) (i : Nat) (fx : Int) (name : Bytes) : File × Out :=
   | some v =>
     if badField v.nfields fx then (f, .fail)
     else if v.alist.isEmpty then (f, .fail)
-    else match find name (view v.alist fx) with
+    else match find (name.take VSNAMELENMAX) (view v.alist fx) with
       | some k => (f, .items [.int k])
       | none => (f, .fail)
 
@@ -180,7 +177,7 @@ def vsGetAttr (f : File) (i : Nat) (fx : Int) (idx : Int) : File × Out :=
 
 /-- `Vsetattr(vgid, attrname, datatype, count, values)`: as `VSsetattr` without field index -/
 def vgPut (al : AList) (a : Attr) (count : Int) : Option AList :=
-  match find a.name al with
+  match find (stored a).name al with
   | some k =>
     let old := al.getD k default
     if compatible .vs old a then some (al.set k { a with name := old.name }) else none
@@ -192,7 +189,7 @@ def vgSetAttr (f : File) (i : Nat) (name : Bytes) (nt : Nat) (count : Int) (val 
   | some g =>
     if g.mode != some true then (f, .fail)
     else match vgPut g.alist { name := name, nt := nt, count := count.toNat, val := val } count with
-      | none => ({ f with leaked := f.leaked || leaks g.alist { name := name, nt := nt, count := count.toNat, val := val } count }, .fail)
+      | none => (f, .fail)
       | some al => ({ f with vgs := f.vgs.set i { g with alist := al } }, .ok)
 
 /-- `Vnattrs` -/
@@ -205,7 +202,7 @@ def vgNattrs (f : File) (i : Nat) : File × Out :=
 def vgFindAttr (f : File) (i : Nat) (name : Bytes) : File × Out :=
   match attachedVg f i with
   | none => (f, .bad)
-  | some g => match find name g.alist with
+  | some g => match find (name.take VSNAMELENMAX) g.alist with
     | some k => (f, .items [.int k])
     | none => (f, .fail)
 
